@@ -21,7 +21,9 @@ RULE = (
     "anisotropic}: shape (Z, X, Y) with one sample per voxel centre floor(min) + res/2 + k*res below ceil(max); a voxel is "
     "255 iff its centre is inside the union of the round cones of the edges (reference: max over t of r(t) - |p - c(t)| "
     "in closed form), voxels with |margin| < 1e-3 excepted and counted; transform_and_save + read_imgs gives the same "
-    "array. Non-trivial: (stack) >= 3 distinct axis lengths or a size-1 axis, with a dtype conversion; (raster) "
+    "array; in a quarter of the cases the region is given by the caller (ranges=(lo, hi) as list / tuple / float64 / float32 "
+    "array / integers, around the bounding box): one sample per voxel centre lo + res/2 + k*res below hi, same membership "
+    "rule, the caller's objects unchanged and a second raster of the same region identical. Non-trivial: (stack) >= 3 distinct axis lengths or a size-1 axis, with a dtype conversion; (raster) "
     "anisotropic resolution or a tapering edge."
 )
 ASSUMPTIONS = [
@@ -158,7 +160,13 @@ def raster_strategy(draw, tier):
         r = [draw(st.integers(5, 14)) / 16.0 for _ in range(n)]
         res = draw(st.sampled_from([2, 2, 1, [1, 1, 2], [0.5, 1, 2]]))
         save = draw(st.integers(0, 1)) == 0
-    return {"parents": parents, "xyz": xyz, "r": r, "res": res, "save": save}
+    case = {"parents": parents, "xyz": xyz, "r": r, "res": res, "save": save}
+    if draw(st.integers(0, 3)) == 0:
+        # the region to rasterise is given by the caller (a common box for several neurons), as any array-like, and the
+        # same objects are handed over again for a second raster
+        case["ranges"] = {"dlo": [draw(st.integers(-3, 3)) / 2.0 for _ in range(3)], "dhi": [draw(st.integers(-3, 3)) / 2.0 for _ in range(3)],
+                          "form": draw(st.sampled_from(["list", "tuple", "float64", "float32", "float32", "int-list"]))}
+    return case
 
 
 def _margin(P, a, b, ra, rb):
@@ -203,6 +211,18 @@ def run_raster(case, ctx):
     R = r.astype(np.float64)
     lo = np.floor((X - R[:, None]).min(axis=0))
     hi = np.ceil((X + R[:, None]).max(axis=0))
+    rg = case.get("ranges")
+    ranges = None
+    if rg:
+        lo = lo + np.array(rg["dlo"])
+        hi = np.maximum(hi + np.array(rg["dhi"]), lo + 2 * res3)
+        if rg["form"] == "int-list":
+            lo, hi = np.floor(lo), np.ceil(hi)
+        mk = {"list": lambda v: [float(q) for q in v], "tuple": lambda v: tuple(float(q) for q in v),
+              "float64": lambda v: np.array(v, dtype=np.float64), "float32": lambda v: np.array(v, dtype=np.float32),
+              "int-list": lambda v: [int(q) for q in v]}[rg["form"]]
+        ranges = (mk(lo), mk(hi))
+        ctx.cls("region-given-by-the-caller", "region-as:" + rg["form"])
     centres = []
     for k in range(3):
         c = []
@@ -226,7 +246,16 @@ def run_raster(case, ctx):
         ctx.check(stack.size == 0, "raster/empty-grid-yields-empty-stack",
                   lambda: f"shape {tuple(stack.shape)} although no voxel centre lies inside {lo.tolist()}..{hi.tolist()} at {res3.tolist()}")
         return
-    stack = ctx.lib("ToImageStack", lambda: ToImageStack(res)(tree))
+    if ranges is None:
+        stack = ctx.lib("ToImageStack", lambda: ToImageStack(res)(tree))
+    else:
+        rasteriser = ToImageStack(res)
+        stack = ctx.lib("ToImageStack.transform[ranges]", lambda: np.stack(list(rasteriser.transform(tree, verbose=False, ranges=ranges)), axis=0))
+        ctx.check(np.array_equal(np.asarray(ranges[0], dtype=np.float64), lo) and np.array_equal(np.asarray(ranges[1], dtype=np.float64), hi),
+                  "raster/region-given-by-the-caller-is-left-unchanged", lambda: f"{ranges} vs {lo.tolist()}..{hi.tolist()}")
+        again = ctx.lib("ToImageStack.transform[ranges]", lambda: np.stack(list(rasteriser.transform(tree, verbose=False, ranges=ranges)), axis=0))
+        ctx.check(again.shape == stack.shape and np.array_equal(again, stack), "raster/same-region-same-raster-when-asked-again",
+                  lambda: f"shape {again.shape} vs {stack.shape}, {int((again != stack).sum()) if again.shape == stack.shape else '?'} voxels differ")
     if stack.shape[0] == 1:
         ctx.cls("raster:single-slice")
     want_shape = (len(centres[2]), len(centres[0]), len(centres[1]))
@@ -256,7 +285,10 @@ def run_raster(case, ctx):
         path = os.path.join(ctx.tmpdir, "raster.tif")
         if os.path.exists(path):
             os.remove(path)
-        ctx.lib("transform_and_save", lambda: ToImageStack(res).transform_and_save(path, tree, verbose=False))
+        if ranges is None:
+            ctx.lib("transform_and_save", lambda: ToImageStack(res).transform_and_save(path, tree, verbose=False))
+        else:
+            ctx.lib("transform_and_save[ranges]", lambda: ToImageStack(res).transform_and_save(path, tree, verbose=False, ranges=ranges))
         back = ctx.lib("read_imgs", lambda: read_imgs(path, dtype=np.uint8).get_full())
         want = np.moveaxis(stack, 0, 2)[..., None]
         ctx.check(tuple(back.shape) == tuple(want.shape) and np.array_equal(back, want), "raster/saved-tiff-reads-back-the-same",
@@ -268,5 +300,6 @@ SUBCHECKS = [
         required={"fmt:tiff": 200, "fmt:tif-stack": 100, "fmt:nrrd": 100, "fmt:npy": 100, "size-1-axis": 200, "converted": 400,
                   "channels:3": 150, "channels:1": 150, "channels:None": 150, "path:f->u": 80, "path:u->f": 80}),
     Sub("raster", raster_strategy, run_raster, quick=1500, thorough=12000, shards_quick=4,
-        required={"res:aniso": 60, "taper": 100, "saved": 30, "res:0.5": 15, "res:2": 15, "raster:single-slice": 20}),
+        required={"res:aniso": 60, "taper": 100, "saved": 30, "res:0.5": 15, "res:2": 15, "raster:single-slice": 20,
+                  "region-given-by-the-caller": 150, "region-as:float32": 40}),
 ]
